@@ -314,7 +314,7 @@ func RunC16(d *Driver) *Report {
 		src := g.Program()
 		c16Diff(r, src, "differential", known)
 	}
-	for _, src := range c17Fixed()[:66] {
+	for _, src := range c17Fixed()[:69] {
 		c16Diff(r, src, "differential-fixed", known)
 	}
 	for _, src := range c16Aliasing() {
@@ -347,6 +347,21 @@ func RunC16(d *Driver) *Report {
 		"s := \"abc\"\nx := s[-1]\ny := s[-3:]\nz := s[:-1]\nx = x\ny = y\nz = z\n",
 	} {
 		c16Diff(r, src, "differential-errors", known)
+	}
+	// a declaration in an inner block that shadows an outer variable and reads that variable in its own initialiser
+	// (the initialiser is evaluated before the new name exists), in every kind of block, nested, after a sibling block
+	// has used the slot, and across loop iterations
+	for _, src := range []string{
+		"x := 5\nr := 0\nif true\n    x := x + 1\n    r = x\nend\nr = r\nx = x\n",
+		"x := 5\nr := 0\nif true\n    junk := 100\n    r = junk\nend\nif true\n    x := x + 1\n    r = x\nend\nr = r\nx = x\n",
+		"s := \"a\"\nout := \"\"\nfor i := range 3\n    s := s + \"b\"\n    out = out + s\nend\nout = out\ns = s\n",
+		"x := 1\nr := 0\nw := 0\nwhile w < 3\n    w = w + 1\n    x := x * 10\n    r = r + x\nend\nr = r\nx = x\n",
+		"x := 2\nr := 0\nif x > 1\n    x := x + 1\n    if x > 2\n        x := x + 1\n        for i := range 2\n            x := x + i\n            r = r + x\n        end\n        r = r + x\n    end\n    r = r + x\nend\nr = r + x\n",
+		"a := [1 2]\nn := 0\nif true\n    a := a + [3]\n    n = (len a)\nend\nfor e := range a\n    a := [e] + a\n    n = n + (len a)\nend\nn = n\na = a\n",
+		"x := 1\ny := 2\nr := 0\nif true\n    y := x + y\n    x := y + x\n    r = x * 100 + y\nend\nr = r\n",
+		"b := true\nr := 0\nif b\n    b := !b\n    if !b\n        r = 1\n    end\nend\nr = r\nb = b\n",
+	} {
+		c16Diff(r, src, "differential-shadowing", known)
 	}
 	// --- 3. unsupported constructs must be compile errors
 	for _, c := range c16Unsupported() {
